@@ -10,10 +10,8 @@ Lines
 from __future__ import annotations
 
 import itertools
-import json
 import re
 import urllib.parse
-from pathlib import Path
 
 from dissect.cobaltstrike import c2
 
@@ -28,9 +26,9 @@ STREAMS = {
     "status": {"relevant": False, "desc": "status tokens: digits, signs, underscores, Unicode digits/spaces, invalid UTF-8, 4300-digit limit"},
     "uri": {"relevant": False, "desc": "exhaustive request targets <= 4 chars over a 15 letter alphabet + structured targets (through parse_raw_http)"},
     "netloc": {"relevant": False, "desc": "targets '//[host]…': IPv6 / IPvFuture / bracket checks of urlsplit (through parse_raw_http)"},
-    "param-nonascii": {"relevant": True, "desc": "percent-encoded parameter bytes >= 0x80 (known-finding class C16-param-nonascii)"},
+    "param-nonascii": {"relevant": True, "desc": "well-formed requests with percent-encoded parameter bytes >= 0x80 (regression of the defect repaired by 5b05344): expected = the decoded bytes"},
     "us": {"relevant": False, "desc": "urllib.parse.urlsplit(bytes) 5-tuple vs model"},
-    "qsl": {"relevant": False, "desc": "urllib.parse.parse_qsl(bytes) vs model"},
+    "qsl": {"relevant": False, "desc": "parse_qsl(str, encoding='latin-1') re-encoded as latin-1 (the call of the repaired code) vs model"},
     "int": {"relevant": False, "desc": "int(bytes.decode()) vs model (incl. surrounding whitespace, unreachable through split())"},
     "uq": {"relevant": False, "desc": "urllib.parse.unquote_to_bytes vs model"},
 }
@@ -38,7 +36,7 @@ TRUSTED = [
     "tools/harness/c16.py generators, plain-Python renderer and oracle; line protocol parsing in lean/CsVerif/Driver/C16.lean",
     "tools/gen/c16_unicode.py (str.isspace / unicodedata.decimal tables of the running interpreter)",
     "CPython 3.12.1 built-ins are modelled (Model/C16.lean), not verified: bytes.partition/split/rstrip/upper, UTF-8 and ASCII-ignore "
-    "decoding, int(str), urllib.parse.urlsplit/parse_qsl/unquote on bytes, ipaddress.ip_address validity, dict; each is exercised "
+    "decoding, int(str), urllib.parse.urlsplit on bytes, parse_qsl/unquote on str with encoding latin-1, ipaddress.ip_address validity, dict; each is exercised "
     "by a dedicated stream (status/int, uri/netloc/us, qsl/uq)",
 ]
 ASSUMPTIONS = [
@@ -53,15 +51,6 @@ RULE = ("structured messages + exhaustive small-alphabet targets/queries/status 
 WS = frozenset(b" \t\n\r\x0b\x0c")
 WSB = b" \t\n\r\x0b\x0c"
 UNRESERVED = frozenset(b"ABCDEFGHIJKLMNOPQRSTUVWXYZabcdefghijklmnopqrstuvwxyz0123456789_.~-")
-_KNOWN_ID = "C16-param-nonascii"
-
-
-def _known_recorded() -> bool:
-    try:
-        data = json.loads((Path(__file__).resolve().parents[2] / "known_findings.json").read_text())
-        return any(k.get("id") == _KNOWN_ID and k.get("status") == "known" for k in data.get("findings", []))
-    except Exception:  # noqa: BLE001
-        return False
 
 
 # --------------------------------------------------------------------------------------------
@@ -299,7 +288,6 @@ def gen_ipv6ish(rng) -> bytes:
 
 def gen(tier, rng, shard, nshards):
     thorough = tier == "thorough"
-    known_recorded = _known_recorded()
     k = 0
 
     def mine():
@@ -326,7 +314,7 @@ def gen(tier, rng, shard, nshards):
     for _ in range(n_msg):
         r = rng.random()
         if r < 0.55:
-            v, m, p, ps, hs, b = gen_wellformed_req(rng)
+            v, m, p, ps, hs, b = gen_wellformed_req(rng, hi=rng.random() < 0.25)
             if m.upper().startswith(b"HTTP/"):
                 m = b"GET"
             yield "msg", req_case(v, m, p, ps, hs, b)
@@ -361,16 +349,15 @@ def gen(tier, rng, shard, nshards):
             data = m + b" " + target + b" " + v + b"".join(b"\r\n" + ln for ln in lines) + b"\r\n\r\n" + b
             yield "msg", pw_line(data, v, show_req(m, p, dict_pairs([(a, c) for a, c in ps2 if c]), dict_pairs(exp_h), b))
 
-    # ---- known-finding class: percent-encoded parameter bytes >= 0x80
-    # (volume kept below check.py's 200-diffs-per-worker cap so that known hits cannot crowd out other diffs)
-    for _ in range((1600 if thorough else 400) // nshards):
+    # ---- parameter bytes >= 0x80, percent-encoded (the defect repaired by 5b05344 made these raise UnicodeEncodeError)
+    if shard == 0:
+        for ps in ([(b"x", b"\xff")], [(b"\xff", b"a")], [(b"id", b"\xff\x00A\x80")], [(b"a", b"\xc3\xa9"), (b"\x80", b"\x80")]):
+            yield "param-nonascii", req_case(b"HTTP/1.1", b"GET", b"/", ps, [], b"")
+    for _ in range((4000 if thorough else 600) // nshards):
         v, m, p, ps, hs, b = gen_wellformed_req(rng, hi=True)
         if m.upper().startswith(b"HTTP/"):
             m = b"GET"
-        if known_recorded:
-            yield "param-nonascii", req_case(v, m, p, ps, hs, b)
-        else:
-            yield "param-nonascii", "p " + C.hx(render_req(v, m, p, ps, hs, b))
+        yield "param-nonascii", req_case(v, m, p, ps, hs, b)
 
     # ---- malformed start lines
     toks = [b"GET", b"/a", b"HTTP/1.1", b"200", b"OK", b"x", b"HTTP/", b"http/1.0", b"\xff", b"/a?b=c", b"Not", b"Found"]
@@ -503,6 +490,7 @@ def gen(tier, rng, shard, nshards):
                 yield "uq", "uq " + C.hx(bytes(t))
     for _ in range((20000 if thorough else 3000) // nshards):
         q = b"".join(rng.choice([b"a", b"=", b"&", b"+", b"%", b"%4", b"%41", b"%7F", b"%80", b"%ff", b"%C3%A9", b"%zz", b"%%", b"b=c", b"k=", b"=v", b";", b"\x00", b"%00", b"%2B", b"%26"]) for _ in range(rng.randrange(0, 9)))
+        q = bytes(x for x in q if x < 0x80)
         yield "qsl", "qsl " + C.hx(q)
         yield "uq", "uq " + C.hx(q)
 
@@ -520,7 +508,8 @@ def impl(stream, line):
         r = urllib.parse.urlsplit(C.unhx(w[1]))
         return "ok " + " ".join(C.hx(x) for x in r)
     if op == "qsl":
-        return "ok " + show_pairs(urllib.parse.parse_qsl(C.unhx(w[1])))
+        ps = urllib.parse.parse_qsl(C.unhx(w[1]).decode("ascii"), encoding="latin-1")
+        return "ok " + show_pairs([(k.encode("latin-1"), v.encode("latin-1")) for k, v in ps])
     if op == "int":
         return "ok " + str(int(C.unhx(w[1]).decode()))
     if op == "uq":
@@ -567,26 +556,11 @@ def nontrivial(stream, line, out):
     if stream in ("status", "int"):
         return True
     if out.startswith("exc "):
-        return stream in ("netloc", "param-nonascii")
+        return stream == "netloc"
     w = out.split(" ")
     if w[0] == "ok" and len(w) > 1 and w[1] in ("req", "resp"):
         return any(t not in ("x", "0") for t in w[4:])
     return True
-
-
-def known(stream, line, known_list):
-    if not line.startswith("pw "):
-        return None
-    if not any(k.get("id") == _KNOWN_ID for k in known_list):
-        return None
-    w = line.split(" ")
-    if len(w) < 6 or w[3] != "req":
-        return None
-    n = int(w[6])
-    toks = w[7:7 + 2 * n]
-    if any(x >= 0x80 for t in toks for x in C.unhx(t)):
-        return _KNOWN_ID
-    return None
 
 
 # --------------------------------------------------------------------------------------------
